@@ -66,6 +66,7 @@ type Pred struct {
 	Name   string
 	Params []string
 	Body   string
+	Pkg    string // package whose scope resolves type names in the body
 }
 
 type GuardSpec struct {
@@ -282,7 +283,7 @@ func ParseContracts(pkgPath, path, src string) (*ContractFile, error) {
 			if k < 0 {
 				return nil, errf("pred needs params")
 			}
-			p := &Pred{Name: strings.TrimSpace(hd[:k]), Params: splitComma(hd[k+1 : strings.LastIndex(hd, ")")]), Body: body}
+			p := &Pred{Name: strings.TrimSpace(hd[:k]), Params: splitComma(hd[k+1 : strings.LastIndex(hd, ")")]), Body: body, Pkg: pkgPath}
 			cf.Preds[p.Name] = p
 			cur, curLoop, curGuard, curLemma = nil, nil, nil, nil
 		case "guarded":
